@@ -64,12 +64,22 @@ func (e *Exec) Run() {
 			st.Ghost[gi.Name] = env.eval(gi.E)
 		}
 		for _, rq := range e.contract.Requires {
-			st.assume(env.evalBool(rq.E))
+			g := env.evalBool(rq.E)
+			if e.requireTerms == nil {
+				e.requireTerms = map[string]bool{}
+			}
+			e.requireTerms[g.S] = true
+			st.assume(g)
 		}
 		if impl := e.implContract(); impl != nil {
 			ienv := e.implEnv(st, fr, impl, false)
 			for _, rq := range impl.Requires {
-				st.assume(ienv.evalBool(rq.E))
+				g := ienv.evalBool(rq.E)
+				if e.requireTerms == nil {
+					e.requireTerms = map[string]bool{}
+				}
+				e.requireTerms[g.S] = true
+				st.assume(g)
 			}
 		}
 		for _, ci := range e.contract.CbInv {
